@@ -18,7 +18,7 @@ import tempfile
 
 from .. import env
 from ..faults import EmitterFaults
-from ..monitors import FailOpen, InjectedFault, bind_open, diff_snap, snapshot_dir
+from ..monitors import InjectedNonOSFault, FailOpen, InjectedFault, bind_open, diff_snap, snapshot_dir
 from ..syncsim import KINDS, Project, make_project, run_api, run_cli
 
 PROPERTY = "C20"
@@ -225,13 +225,15 @@ def enumerate_faults(ctx, op, meta, tmproot, crash_sample):
     points = [("step", j, None) for j in range(m_steps)] + [("write", k, mode) for k in range(n_writes) for mode in ("before_open", "before_write", "mid_write", "at_close")]
     # the same write faults once more with the condition persisting (the disk stays full: every later write fails too)
     points += [("write", k, mode + "+persistent") for k in range(n_writes) for mode in ("before_write", "mid_write", "at_close")]
+    # ... and a failure in the middle of a write that is not an OSError at all (MemoryError; an interrupt or an encoding error alike)
+    points += [("write", k, "mid_write_non_os_error") for k in range(n_writes)]
     for kind, idx, mode in points:
         persistent = bool(mode) and mode.endswith("+persistent")
         mode = mode[: -len("+persistent")] if persistent else mode
         for crash in (False, True):
             if crash and persistent:
                 continue
-            if crash and (kind == "step" or not crash_sample):
+            if crash and (kind == "step" or not crash_sample or mode == "mid_write_non_os_error"):
                 continue
             root = tempfile.mkdtemp(prefix="f", dir=tmproot)
             try:
@@ -257,7 +259,7 @@ def enumerate_faults(ctx, op, meta, tmproot, crash_sample):
                     ef = EmitterFaults(idx if kind == "step" else None).install()
                     try:
                         op.api(p)
-                    except InjectedFault:
+                    except (InjectedFault, InjectedNonOSFault):
                         pass
                     except BaseException as e:
                         ctx.report_exception(e, base, replay, stage="after_fault")
